@@ -30,7 +30,7 @@ CFG = {"quick": ("EvalOrder_quick", 24), "thorough": ("EvalOrder_thorough", 6)}
 BATCH = 220          # functions per generated module
 ALL_FORMS = {"getitem", "slice", "getattr", "add", "neg", "lt", "lt3", "in", "notin", "and", "or", "not", "cond",
              "tuple", "list", "set", "dict1", "dict2", "fstr", "fspec", "ret", "assign", "aug", "unpack",
-             "tN", "tsub", "tattr", "tslice"}
+             "tN", "tsub", "tattr", "tslice", "inlit", "notinlit"}
 
 _FRESH = re.compile(r"V5\d{4}")
 _IDX_EV = re.compile(r"\.(getitem|setitem)\(")
@@ -60,6 +60,18 @@ def collapse(log):
             continue
         out.append(ev)
     return out
+
+
+_EQ_EV = re.compile(r"V\d+\.eq\(")
+
+
+def observe(c, got):
+    """the observation of one case.  Membership in a SET display: CPython hashes (which elements get compared, and
+    when, is unspecified; Cython compares one by one) -- the == events are not part of the observation there
+    (the spec does not log them), the evaluation of the operands and the result are."""
+    if isinstance(got, str) or not c.get("_setmem"):
+        return got
+    return [[ev for ev in got[0] if not _EQ_EV.match(ev)], got[1]]
 
 
 def _msd(a, b):
@@ -262,11 +274,24 @@ def vacuity(cases):
         if "F" in c["out"]:
             cnt["falsy-leaf"] += 1
         le.forms(c["ast"], seen_forms)
+        top = c["ast"]["a"][0] if c["ast"]["t"] == "ret" else None
+        if top is not None and top["t"] in le.MEMBER:
+            cnt["member:" + top["k"]] += 1
+            n = len(top["a"]) - 1
+            if all(x["t"] == "L" for x in top["a"]) and not c["exc"] and c["out"][0] == "F":
+                # both falsy = equal: an element before the last one already matches, the rest must be evaluated all the same
+                if "F" in c["out"][1:n]:
+                    cnt["member-early-match:" + top["k"]] += 1
+                elif c["out"][n] == "F":
+                    cnt["member-last-match"] += 1
+            if any(_EQ_EV.match(ev) for ev in c["log"]):
+                cnt["member-eq-observed"] += 1
     base = {f.split(":")[0] for f in seen_forms}
     # target kinds belong to the sub-sampled statement families: a small sample may lack one of them
     missing = (ALL_FORMS | {"call", "L", "N"}) - base - {"tN", "tslice", "tattr"}
     need = ["stmt:ret", "stmt:assign", "stmt:aug", "stmt:unpack", "typing:O", "typing:I", "typing:M", "raise",
-            "short-circuit-skip", "falsy-leaf"]
+            "short-circuit-skip", "falsy-leaf", "member:tuple", "member:list", "member:set", "member-early-match:tuple",
+            "member-early-match:list", "member-early-match:set", "member-last-match", "member-eq-observed"]
     lacking = [k for k in need if cnt[k] == 0]
     return cnt, sorted(seen_forms), sorted(missing), lacking
 
@@ -284,6 +309,8 @@ def run(tier, seed):
     cases = r.printed
     cov = {"tlc": [dict(r.summary(), config=cfg, rem=seed % mod)]}
     del r.out
+    for c in cases:
+        c["_setmem"] = any(m["k"] == "set" for m in le.members(c["ast"]))
     items = group_cases(cases)
     n_ast = len({k for (k, _), _ in items})
     if not cases or len(cases) != r.distinct - 1 - n_ast:
@@ -314,7 +341,7 @@ def run(tier, seed):
     for m, res in zip(mods, resP):
         for cs, rs, w in zip(m["idx"], res, m["work"]):
             for k, c in enumerate(cs):
-                got = rs if isinstance(rs, str) else rs[k]
+                got = observe(c, rs if isinstance(rs, str) else rs[k])
                 if got != [c["log"], c["exc"]]:      # S must equal CPython literally (incl. repeated truth tests)
                     n_drift += 1
                     rep.spec_drift("EvalOrder vs CPython", {"source": le.stmt(c["ast"], c["ty"])[0], "out": c["out"],
@@ -375,7 +402,7 @@ def run(tier, seed):
                                         "ast": c["ast"]})
                 continue
             for k, c in enumerate(cs):
-                got = rs if isinstance(rs, str) else rs[k]
+                got = observe(c, rs if isinstance(rs, str) else rs[k])
                 want = [c["log"], c["exc"]]
                 n_eval += 1
                 if len(c["lp"]) >= 2:
@@ -422,7 +449,8 @@ def run(tier, seed):
     cov["known_findings"] = rep.kf_summary()
     core.write_evidence(PROP, tier, seed, "model_checking", cov, time.time() - t0,
                         assumptions=["protocol methods of the logging class return fresh objects that inherit the receiver's truth value",
-                                     "__hash__/__eq__ calls made by dict/set displays are not observed (timing unspecified)",
+                                     "__hash__/__eq__ calls made by dict/set displays are not observed (timing unspecified); membership in a set display: == events not observed",
+                                     "== of the equality-aware logging objects is observed as an unordered pair (CPython asks the element, Cython the tested value)",
                                      "exception type only; typed leaves are cfunc calls returning C int (values are small, no overflow)",
                                      "unevaluated leaves get outcome T (canonical vectors)"],
                         violations=rep.n_violations())
